@@ -99,6 +99,13 @@ def write_source(fmt, cols, workdir, groups=None):
 
     df = pd.DataFrame(cols)
     if fmt == "frame":
+        # data frames as users have them: a row selection / concatenation leaves a non-default index
+        n = len(df)
+        kind = (n + len(cols)) % 3
+        if kind == 1:
+            df.index = np.arange(n) * 3 + 5
+        elif kind == 2:
+            df.index = np.arange(n)[::-1].copy()
         return df
     if fmt == "hdf":
         import h5py
